@@ -65,18 +65,18 @@ def _scripts(ctx, sessions):
                            timeout=1200, workers=min(8, vlib.NCPU))
     sims = []
     for b in range(1 if quick else 4):
-        _, it = ctx.generate("Gen_Stream", "Gen_Stream_sim.cfg", "sim%d.ndjson" % b, simulate=25 if quick else 250,
+        _, it = ctx.generate("Gen_Stream", "Gen_Stream_sim.cfg", "sim%d.ndjson" % b, simulate=40 if quick else 250,
                              depth=900, extra_seed=b, timeout=900)
         sims += it
     by = {}
     for s in cuts + sims:
         src = s["src"].split("-")[0] if s["src"].startswith("sim") else s["src"]
         by.setdefault((s["sess"], src), {})[json.dumps(s["segs"])] = s   # de-duplicated
-    caps = {"cut0": 1, "cut1": 55 if quick else 10 ** 9, "cut2": 60 if quick else 2500, "ones": 1, "ones-head": 1,
+    caps = {"cut0": 1, "cut1": 30 if quick else 10 ** 9, "cut2": 70 if quick else 2500, "ones": 1, "ones-head": 1, "chunks": 3,
             "sim": 25 if quick else 400}
     out = []
     gen_counts = {}
-    for key in sorted(by):
+    for key in sorted(by, key=lambda k: (k[0], k[1] != "cut0", k[1])):   # the unsegmented run first
         pool = [by[key][k] for k in sorted(by[key])]
         gen_counts["%s/%s" % key] = len(pool)
         cap = caps.get(key[1], 50)
